@@ -36,6 +36,15 @@ CLAIMED = {
  "C20": dict(cat="proof", tech="Coq theorem on the debug stride-check loop as written (abort iff some stride non-canonical; no UB before the abort); process-exit-status correspondence in assertion-enabled and NDEBUG builds",
    text="Theorems C20_abort_iff(+_prop), C20_silent_on_canonical, C20_ndebug_unchecked, C20_rank0_unchecked about the model of the loop (running stride in index_type, comparison in the common type, product advanced only after a successful comparison). Correspondence: conversions run as child processes without NDEBUG (SIGABRT expected iff a stride differs and rank>0) and with NDEBUG (never).",
    ref="4/C20"),
+ "C04": dict(cat="proof", tech="Coq aliasing theorem over arbitrary strided sources, all ranks and slice kinds, lifted to chains by induction; refinement of submdspan_extents/_mapping; element-address correspondence",
+   text="Theorems C04_alias_spec (element j of the view is source element first_k + j*step_k, in bounds), C04_refines (the implementation model - with machine integers, the static/dynamic extent rules, the inverse rank map and the layout-preservation decision - computes exactly the specified extents, strides and offset), C04_alias (handle' + offset'(j) = handle + offset(compose j) on the implementation model), C04_chain_spec / C04_chain (views of views to any depth, by induction over the list of slicings), C04_result_valid, C04_result_dims. Correspondence: generated programs over layout_left/right/stride sources x slice-kind tuples (kinds are C++ types) x chains; for every element of every view its address and the address of the source element it must alias are compared, on the implementation's own output and against the model.",
+   ref="4/C04"),
+ "C09": dict(cat="proof", tech="Coq rule-model of the submdspan metaprograms proved equivalent to the declarative slicing rules (all ranks); decltype correspondence with g++ and clang++",
+   text="Theorems C09_rank, C09_static_iff, C09_preserve_left_iff / C09_preserve_right_iff (the implementation's fold over slice positions <=> 'rank 0, or leading/trailing full_extents with at most one pair/tuple at the boundary and only indices elsewhere'; the implementation never checks the last clause, it follows by counting), C09_result_layout, C09_preserved_is_sound_left/right (a preserved layout has exactly the source strides on the surviving dimensions). Correspondence: rank, static extents and layout tag of decltype(submdspan(...)) printed by the compiled programs vs the evaluated rule-model; index type, element type and offset_policy checked by static_assert in the driver.",
+   ref="4/C09", note=NOTE_COMMON + " Partial: that the compilers evaluate the templates as the rule-model does is observed on the generated programs, not proved."),
+ "C10": dict(cat="proof", tech="Coq containment theorems (offset <= span; non-empty view inside the source span) on spec and implementation model; boundary-stream correspondence",
+   text="Theorems C10_contained (implementation model: 0 <= offset <= source span, and offset + view span <= source span for a non-empty view - empty slices at the end of an extent included), C10_contained_spec, C10_offset_lt_span, C10_chain_sub_valid. Correspondence: the submdspan driver with begin == extent in one/several dimensions, empty strided slices, zero-extent sources; the containment predicate is evaluated on the implementation's printed offsets and spans at every level of a chain.",
+   ref="4/C10"),
 }
 PENDING_REASON = "check under construction in this session (Coq theorems and correspondence driver not yet committed); not claimed until both exist"
 
